@@ -84,6 +84,7 @@ MARKER_PROPS = {
     "VF:huffman.": ["C06"],
     "VF:huffman.read_differs_from_pushed": ["C06", "C01", "C02", "C10"],
     "VF:huffman.raw_roundtrip": ["C06", "C01"],
+    "VF:huffman.clone_onto_differs_from_pushed": ["C06", "C01"],
     "VF:huffman.empty_code_book": ["C06", "C10", "C01"],
     "VF:huffman.after_clear_not_raw": ["C06", "C08"],
     "VF:huffman.stats_survived_clear": ["C06", "C08"],
